@@ -31,6 +31,7 @@ func propC07(c *Ctx) {
 	c.ruleNewlineOwner()
 	c.ruleScanTrace()
 	c.ruleDirectiveTrace()
+	c.ruleNoRewrap()
 	c.ruleMemoKey()
 	// line numbers are counted in the file's bytes: nothing may rewrite them in place (a normaliser that works on the
 	// slice it was given shifts every later line)
@@ -1171,4 +1172,59 @@ func isRecvField(f *Fn, e ast.Expr) bool {
 	}
 	id, ok := ast.Unparen(sel.X).(*ast.Ident)
 	return ok && f.Pkg.TypesInfo.Uses[id] == f.Pkg.TypesInfo.Defs[f.Decl.Recv.List[0].Names[0]]
+}
+
+// ---------- a located error is handed on, not retold ----------
+
+// noRewrapExceptions: one site, by design of the language: an error inside a pasted macro body is reported at the
+// PASTE directive, with the inner error's text as the message.
+var noRewrapExceptions = map[string]string{
+	"expansion of PASTE": "an error of a pasted directive is reported on its PASTE directive, with the rendered inner error as the message (pinned by the macro error tests)",
+}
+
+// ruleNoRewrap: a *jerr.JApiError carries its place (file, index, include chain). Building a new error from its text
+// - X.KeywordError(je.Error()) - moves the report to another place and repeats the chain inside the message. Errors of
+// the plain `error` type have no place of their own and are rightly given the directive's.
+func (c *Ctx) ruleNoRewrap() {
+	r := c.R
+	r.Rule("C07-NO-REWRAP", "no call that builds a *jerr.JApiError is given the text of another *jerr.JApiError (an argument <je>.Error() with je of that type): the inner error already says where the fault is, the new one would say somewhere else and carry the inner include chain inside its message; exception: the PASTE handler, which reports the error of a pasted body on the PASTE directive", 1)
+	n := 0
+	paste := c.pasteRoles().perDirective
+	for _, f := range c.libFns() {
+		pk := f.Pkg
+		ast.Inspect(f.Decl.Body, func(nd ast.Node) bool {
+			call, ok := nd.(*ast.CallExpr)
+			if !ok {
+				return true
+			}
+			t := pk.TypesInfo.TypeOf(call)
+			if t == nil || !isJApiErrorPtr(t) {
+				return true
+			}
+			for _, a := range call.Args {
+				ac, ok := ast.Unparen(a).(*ast.CallExpr)
+				if !ok || len(ac.Args) != 0 {
+					continue
+				}
+				sel, ok := ast.Unparen(ac.Fun).(*ast.SelectorExpr)
+				if !ok || sel.Sel.Name != "Error" {
+					continue
+				}
+				if xt := pk.TypesInfo.TypeOf(sel.X); xt == nil || !isJApiErrorPtr(xt) {
+					continue
+				}
+				n++
+				key := fmt.Sprintf("%s | %s(%s)", f.Name(), exprString(call.Fun), exprString(a))
+				if paste != nil && f.Obj == paste.Obj {
+					r.Ok("C07-NO-REWRAP", key, "named exception (expansion of PASTE): "+noRewrapExceptions["expansion of PASTE"], c.pos(call.Pos()))
+					continue
+				}
+				r.Bad("C07-NO-REWRAP", key, "a located error is turned into the message of a new error at another place: the report points at this directive instead of the one at fault, and the message contains the inner include chain a second time", c.pos(call.Pos()))
+			}
+			return true
+		})
+	}
+	if n == 0 {
+		r.Undecided("C07-NO-REWRAP", "sites", "the PASTE handler's re-report was not found: the matcher no longer recognises the one site it is known to have", "")
+	}
 }
